@@ -393,3 +393,9 @@ void vf_harness(void) { const Map* d; Map_add(d); VF_CANARY(); }
     trusted=['(*this)[k] = v by the Map_set contract; Array::operator= by the C01 Array_assign contract (shares the block)'],
 )
 UNITS += [map_add]
+
+# replay: the units verify single operations on ghost-shaped states (one bucket chain, a sorted array); the native counterpart is the driver's small-scope
+# exhaustive search over operation sequences on colliding keys
+for _u in UNITS:
+    if not _u.replay and _u.name != 'nextPoT':
+        _u.replay = replay.battery('C02/driver.cpp', ['battery'])
